@@ -140,6 +140,7 @@ func init() {
 			ruleSpecIndices(c, r, "")
 			ruleDecoderBounds(c, r, "")
 			ruleByteAtGuards(c, r, "")
+			ruleValidDictCap(c, r, "")
 		},
 	})
 }
